@@ -369,6 +369,62 @@ fn scenario_slow_application(rep: &mut Report, r: &mut Rng, clock: &Clock, d: Du
     rep.distinct(mix(&[4, d.as_millis() as u64]));
 }
 
+/// One handler lives through many generations of abandoned uploads that expire: a fresh upload
+/// must keep working (from an empty buffer) and the handler's memory must not creep up.
+fn scenario_long_lived(rep: &mut Report, r: &mut Rng, clock: &Clock, d: Duration, generations: u32, per_generation: u32) {
+    rep.eval();
+    let witness = format!("long-lived handler: expiry {:?}, {} generations of {} abandoned 16 KiB uploads each, every generation idles past the expiry; virtual_time={}", d, generations, per_generation, clock.virt);
+    set_case_str(&witness);
+    let mut mid = 0u16;
+    let mut server = Server::new(1200, d);
+    let mut heap_after_first: Option<isize> = None;
+    for g in 0..generations {
+        for i in 0..per_generation {
+            // an abandoned upload that made the server buffer 16 KiB: block 15 of 1024 bytes
+            let mut q = ReqSpec::new(3, &["gen", &format!("{}", i)]);
+            mid = mid.wrapping_add(1);
+            q.mid = mid;
+            q.block1 = Some((15, true, 6));
+            q.payload = vec![0x61; 1024];
+            let mut app = small_app();
+            let ex = server.exchange(&q.bytes(), 300 + i, &mut app);
+            if ex.reply_code() != Some(0x5f) {
+                rep.violation("long-lived-handler-refuses-uploads", format!("generation {}: abandoned-upload block refused: {}", g, ex.summary()), witness);
+                return;
+            }
+        }
+        clock.advance(d + EPS);
+        // a fresh, complete two-block upload on its own key must be delivered intact
+        let body = body_bytes(r.next_u64(), 1024 + 100);
+        let mut u = Ul { ep: 900, path: vec!["fresh".into()], body, szx: 6, next: 0 };
+        if let Err(e) = ul_block(&mut server, &mut u, &mut mid) {
+            rep.violation("long-lived-handler-refuses-uploads", format!("generation {}: after the abandoned uploads expired, a fresh upload is refused: {}", g, e), witness);
+            return;
+        }
+        match ul_finish(&mut server, &mut u, &mut mid) {
+            Ok(Some(got)) if got == u.body => {}
+            other => {
+                rep.violation("long-lived-handler-refuses-uploads", format!("generation {}: fresh upload delivered {:?}", g, other.map(|o| o.map(|b| b.len()))), witness);
+                return;
+            }
+        }
+        let live = alloc_count::live();
+        match heap_after_first {
+            None => heap_after_first = Some(live),
+            Some(first) => {
+                // everything a generation buffered (per_generation x 16 KiB) has expired and been reclaimed
+                if live > first + (per_generation as isize) * 16 * 1024 / 2 {
+                    rep.violation("long-lived-handler-memory-creeps", format!("generation {}: live heap {} bytes, after the first generation it was {}", g, live, first), witness);
+                    return;
+                }
+            }
+        }
+    }
+    rep.count("long_lived_handler_histories_held");
+    rep.add("expired_upload_bytes_cycled", generations as u64 * per_generation as u64 * 16384);
+    rep.distinct(mix(&[5, d.as_millis() as u64, generations as u64, per_generation as u64]));
+}
+
 fn scenario_reclaim(rep: &mut Report, r: &mut Rng, clock: &Clock, d: Duration, n: u32, traffic: bool) {
     rep.eval();
     let witness = format!("reclamation: expiry {:?}, {} abandoned transfers, other keys busy meanwhile: {}, virtual_time={}", d, n, traffic, clock.virt);
@@ -532,6 +588,12 @@ pub fn run_c20(ctx: &mut Ctx) {
                     }
                 }
             }
+        }
+        // generations of abandoned uploads on one long-lived handler (well past a megabyte in total)
+        if shard <= 3 && level >= 1 {
+            let (gens, per) = *r.pick(&[(12u32, 8u32), (40, 3), (6, 20)]);
+            scenario_long_lived(rep, &mut r, &vc, Duration::from_secs(120), gens, per);
+            rep.floor("long_lived_handler_histories_held", 1);
         }
         // the one-hour / 2000-request retention case named in the property, once per shard 0
         if shard == 0 && level >= 1 {
